@@ -830,6 +830,19 @@ class Walker:
         s.conds.append(Cond(v, False, test, s.frame.func, s.loops))
         return [(s_t, True), (s, False)]
 
+    def _hv_nonnull(self, x, st: State) -> bool:
+        """a loop-carried variable is an object when its value at loop entry and every value bound to it in the loop are objects"""
+        name, lid = x[1], x[2].rstrip("+")
+        vals = [e.value for e in st.events if (e.kind == "loopinit" and e.name == name and e.lid == lid)
+                or (e.kind == "bind" and e.name == name and e.loops and e.loops[-1] == lid)]
+        if not any(e.kind == "loopinit" and e.name == name and e.lid == lid for e in st.events):
+            return False
+
+        def obj(v):
+            return v[0] in ("new", "newb", "lst", "tup", "fileobj") or (v[0] in ("it", "sub") and self.typeof(v, st) is not None) \
+                or (v[0] == "hv" and v[1] == name)
+        return bool(vals) and all(obj(v) for v in vals)
+
     def decide(self, v, st: State):
         """fold what the tags decide: isinstance on file objects, None tests on known values"""
         if v[0] == "call" and v[1] == ("g", "isinstance") and len(v[2]) == 2:
@@ -865,6 +878,10 @@ class Walker:
                 return C(v[1] == "is")
             if x[0] == "call" and x[1][0] == "g" and x[1][1] in ("int", "float", "str", "bytes", "len", "bool", "list", "tuple", "sorted", "bytearray"):
                 nonnull = True
+            if not nonnull and x[0] in ("it", "sub") and self.typeof(x, st) is not None:
+                nonnull = True  # an element of a collection that only ever receives constructed objects
+            if not nonnull and x[0] == "hv":
+                nonnull = self._hv_nonnull(x, st)
             if nonnull or (is_const(x) and x[1] is not None):
                 return C(v[1] == "isnot")
         return v
